@@ -650,7 +650,7 @@ func (t *Topo) Fixture() (string, error) {
 	return root, nil
 }
 
-const fixKeep = 96
+const fixKeep = 24
 
 var (
 	fixUsed  = map[string]int64{}
